@@ -462,7 +462,7 @@ def work_chain(bins, seed, idx, tmp):
 
 def run(ctx):
     quick = ctx.tier == "quick"
-    per = 130 if quick else 2200
+    per = 130 if quick else 6000
     allbad = []
     for r in core.pmap(work_states, [(ctx.bins, "%s/%d/s%d" % (ctx.prop, ctx.seed, i), per) for i in range(32)]):
         ctx.merge_counts(r["st"])
@@ -471,11 +471,11 @@ def run(ctx):
         allbad += r["bad"]
         for s in r["samples"][:1]:
             ctx.sample(s, cap=3)
-    for r in core.pmap(work_pretag, [(ctx.bins, "%s/%d/p%d" % (ctx.prop, ctx.seed, i), 12 if quick else 400) for i in range(16)]):
+    for r in core.pmap(work_pretag, [(ctx.bins, "%s/%d/p%d" % (ctx.prop, ctx.seed, i), 12 if quick else 1200) for i in range(16)]):
         ctx.evaluations += r["n"]
         ctx.count("clean_prerelease_tag_runs", r["n"])
         allbad += r["bad"]
-    nch = 110 if quick else 1000
+    nch = 110 if quick else 3000
     for r in core.pmap(work_chain, [(ctx.bins, "%s/%d" % (ctx.prop, ctx.seed), i, ctx.tmp) for i in range(nch)]):
         ctx.merge_counts(r["st"])
         ctx.evaluations += r["st"]["chain_observations"]
